@@ -342,7 +342,16 @@ int main(int argc, char* const* argv)
     }
 
     if (pipe_in || pipe_out) {
-        if (!ContinueScript(*env)) {
+        bool success;
+        try {
+            success = ContinueScript(*env);
+        } catch (std::exception const& ex) {
+            // script-level failures raised as exceptions (numeric overflow, non-minimal numbers, empty-stack pops)
+            fprintf(stderr, "error: %s\n", ex.what());
+            print_dualstack();
+            return 1;
+        }
+        if (!success) {
             fprintf(stderr, "error: %s\n", ScriptErrorString(*env->serror).c_str());
             print_dualstack();
             return 1;
